@@ -36,14 +36,15 @@ type c06Call struct {
 }
 
 type c06State struct {
-	p        *vpipe.Pipe
-	closeErr error
-	closed   bool
-	readErr  error
-	readDone bool
-	echoed   bool
-	calls    []*c06Call
-	clock    int
+	p          *vpipe.Pipe
+	closeErr   error
+	closed     bool
+	readErr    error
+	readDone   bool
+	echoed     bool
+	calls      []*c06Call
+	clock      int
+	afterClose []string // API calls that succeeded on a closed connection
 }
 
 func c06Setup(prm c06Params) func(c *fw.Ctx, name string) explore.Setup {
@@ -123,6 +124,19 @@ func c06Setup(prm c06Params) func(c *fw.Ctx, name string) explore.Setup {
 							return false
 						}, func() {})
 						late()
+						// once the connection is closed every further Read, Write, Writer and Ping fails
+						if _, err := conn.Writer(bg, websocket.MessageText); err == nil {
+							st.afterClose = append(st.afterClose, "Writer")
+						}
+						if err := conn.Write(bg, websocket.MessageText, []byte("x")); err == nil {
+							st.afterClose = append(st.afterClose, "Write")
+						}
+						if err := conn.Ping(bg); err == nil {
+							st.afterClose = append(st.afterClose, "Ping")
+						}
+						if _, _, err := conn.Read(bg); err == nil {
+							st.afterClose = append(st.afterClose, "Read")
+						}
 					})
 					return
 				}
@@ -183,6 +197,10 @@ func c06Oracle(c *fw.Ctx, w *vs.World, name string, prm c06Params, st *c06State)
 			}
 		}
 		c.OutcomeStr(name + "|" + out)
+		for _, api := range st.afterClose {
+			violate(c, w, name, "C06/after-close/"+api+"-succeeds/"+prm.K.String(), fmt.Sprintf("after Close/CloseNow had returned, %s returned nil", api))
+			return
+		}
 		return
 	}
 	// did the connection's own Close frame get echoed with the same code?
